@@ -1,0 +1,39 @@
+//go:build verif
+
+// Contracts for the renderer (Page, Menu, Sizer), checked by /verif/cmd/vcgo.
+// Comments only; compiled only under the `verif` tag.
+
+package render
+
+//@ ghost cac(m) = as[*cache.Cache](m)
+//@ pred memOk(m) = typeis[*cache.Cache](m) && cache.shape(cac(m))
+//@ pred sizerOk(szr) = szr != nil && szr.memberSizes != nil
+//@ pred pageOk(pg) = pg != nil && pg.cacheMap != nil && memOk(pg.cache) && (pg.sizer != nil ==> sizerOk(pg.sizer))
+
+// Check is the only place where the size budget is compared with the output.
+//@ func (*Sizer).Check
+//@   serves C01
+//@   requires szr != nil
+//@   ensures @fits result1 == (szr.outputSize == 0 || len(s) <= int(szr.outputSize))
+//@   ensures @remaining result1 && szr.outputSize > 0 ==> int(result0) == int(szr.outputSize) - len(s)
+
+//@ func (*Sizer).Set
+//@   requires sizerOk(szr)
+//@   modifies szr.memberSizes[key], szr.sink, szr.totalMemberSize
+//@   ensures result == nil && in(key, szr.memberSizes) && szr.memberSizes[key] == size && (size == 0 ==> szr.sink == key) && (size != 0 ==> szr.sink == old(szr.sink))
+
+// Map exposes a cached value to the template until the next Reset.
+//@ func (*Page).Map
+//@   serves C05
+//@   requires pageOk(pg)
+//@   requires[C09,C05,C08] cache.unique(cac(pg.cache))
+//@   requires[C05,C08] forall(i, 0, len(cac(pg.cache).Cache), cac(pg.cache).Cache[i] != pg.cacheMap)
+//@   modifies pg.sink, pg.cacheMap[key], pg.sizer.memberSizes[key], pg.sizer.sink, pg.sizer.totalMemberSize
+//@   ensures @page pageOk(pg)
+//@   ensures[C05,C08] @cachekept cache.sameScopes(cac(pg.cache)) && cache.unique(cac(pg.cache))
+//@     && (old(cache.sized(cac(pg.cache))) ==> cache.sized(cac(pg.cache)))
+//@     && (old(cache.acct(cac(pg.cache)) && cache.capped(cac(pg.cache))) ==> cache.acct(cac(pg.cache)) && cache.capped(cac(pg.cache)))
+//@   use tsumSame(cac(pg.cache).Cache, 0, len(cac(pg.cache).Cache))
+//@   ensures[C05] @mapped result == nil ==> cache.visible(cac(pg.cache), key) && in(key, pg.cacheMap)
+//@     && pg.cacheMap[key] == cac(pg.cache).Cache[cache.scope(cac(pg.cache), key)][key]
+//@   ensures[C05] @refused result != nil ==> in(key, pg.cacheMap) == old(in(key, pg.cacheMap)) && pg.cacheMap[key] == old(pg.cacheMap[key])
